@@ -831,6 +831,45 @@ pub mod opaque_constgen {
 	}
 }
 
+pub mod opaque_inferred {
+	// A field whose type's LAST path segment is `Uuid` gets the uuid logical type without any
+	// attribute - also when the type is written through a module path.
+	use serde_avro_derive::BuildSchema;
+	use serde_derive::{Deserialize, Serialize};
+	pub mod ids {
+		pub type Uuid = String;
+	}
+	use ids::Uuid;
+	#[derive(BuildSchema, Serialize, Deserialize, PartialEq, Debug, Clone)]
+	pub struct WithIds {
+		pub plain: String,
+		pub a: Uuid,
+		pub b: ids::Uuid,
+		pub c: self::ids::Uuid,
+		pub d: std::option::Option<String>,
+	}
+	pub fn run(out: &mut Vec<String>) {
+		let v = WithIds {
+			plain: "p".into(),
+			a: "00000000-0000-0000-0000-000000000001".into(),
+			b: "00000000-0000-0000-0000-000000000002".into(),
+			c: "00000000-0000-0000-0000-000000000003".into(),
+			d: None,
+		};
+		let mut tmp = vec![];
+		crate::runner::run_family_opaque("inferred-uuid", &[v], &mut tmp);
+		let n_uuid = WithIds::schema_mut()
+			.nodes()
+			.iter()
+			.filter(|n| matches!(n.logical_type, Some(serde_avro_fast::schema::LogicalType::Uuid)))
+			.count();
+		if n_uuid != 3 && tmp.len() == 2 {
+			tmp[1] = format!("uuid-nodes={n_uuid} # VIOLATION hand-written family inferred-uuid: {n_uuid} of the 3 fields whose type is named Uuid carry the uuid logical type");
+		}
+		out.extend(tmp);
+	}
+}
+
 pub mod opaque_lifetimes {
 	use crate::runner::run_family_opaque_borrowed;
 	use serde_avro_derive::BuildSchema;
@@ -937,6 +976,7 @@ pub fn generate_source(seed: u64, n: usize) -> String {
 	src.push_str(OPAQUE_FAMILIES);
 	calls.push("\topaque_constgen::run(out);\n".into());
 	calls.push("\topaque_lifetimes::run(out);\n".into());
+	calls.push("\topaque_inferred::run(out);\n".into());
 	src.push_str("pub fn run_all(out: &mut Vec<String>) {\n");
 	for c in calls {
 		src.push_str(&c);
